@@ -122,6 +122,33 @@ pub fn run(ctx: &mut Ctx) {
         }
         ctx.count_n("mode-c-parses", (nthreads * inputs.len()) as u64);
         ctx.count(&format!("threads:{nthreads}"));
+        // (f) the documented constructors: `extended()`, `canonical()`, `default()` are the parsers `new` builds with the
+        // documented extensions and converter, from their FIRST call on, whichever entry point is called first
+        if round == 0 {
+            let probes = ["---\nprep time: 45 mins\n---\n", ">> time: 1h 30m\n>> cook time: 2 m\n", "---\ntime: 90 minutes\nservings: 2\n---\nWait ~{5%min} with @a{1%kg}.\n", "@a{2%cups} ~{1%hour}\n"];
+            let ctors: [(&str, fn() -> CooklangParser, fn() -> CooklangParser); 3] = [
+                ("extended()", CooklangParser::extended, || CooklangParser::new(Extensions::all(), Converter::bundled())),
+                ("canonical()", CooklangParser::canonical, || CooklangParser::new(Extensions::empty(), Converter::empty())),
+                ("default()", CooklangParser::default, || CooklangParser::new(Extensions::default(), Converter::default())),
+            ];
+            for (name, ctor, reference) in ctors {
+                let r = reference();
+                let want: Vec<(String, String)> = probes.iter().map(|s| (image_meta(&r, s), image(&r, s))).collect();
+                for order in 0..3 {
+                    // a new parser each time: metadata first, recipe first, or converter() first
+                    let p = ctor();
+                    for (i, s) in probes.iter().enumerate() {
+                        let got = match order { 0 => { let m = image_meta(&p, s); let f = image(&p, s); (m, f) } 1 => { let f = image(&p, s); let m = image_meta(&p, s); (m, f) } _ => { let _ = p.converter().unit_count(); (image_meta(&p, s), image(&p, s)) } };
+                        let again = image_meta(&p, s);
+                        ctx.eval("", false);
+                        if got != want[i] || again != want[i].0 {
+                            ctx.oracle_fail(format!("CooklangParser::{name}, call order {order}, input={s:?}"), format!("differs from the parser `new` builds with the documented extensions and converter\nwant: {:?}\ngot:  {:?}\nparse_metadata again: {again}", want[i], got), "c18:constructors".into());
+                        }
+                    }
+                }
+                ctx.count("mode-f-constructors");
+            }
+        }
         // (e) one parser VARIABLE that is assigned parsers with different converters in turn (each new parser takes the place
         // of the previous one in memory): what a parse returns depends on the converter of the parser asked, not on the
         // converters earlier parsers at that place had
